@@ -8,6 +8,7 @@ func init() {
 	vpRegister("c16_scalars", vpH_c16_scalars)
 	vpRegister("c16_containers", vpH_c16_containers)
 	vpRegister("c16_inline_struct", vpH_c16_inline_struct)
+	vpRegister("c16_tags", vpH_c16_tags)
 }
 
 type vpT1 struct {
@@ -450,4 +451,58 @@ func vpH_c16_scalar_kinds() {
 	} else {
 		vpAssert(err != nil, "an incompatible scalar is reported as an error (never silently converted or dropped)")
 	}
+}
+
+// ---- tag spellings: a tag that only carries flags names no key, so the field
+// takes its lower-cased name, exactly like an untagged field ----
+
+type vpT5 struct {
+	Flagged string         `yaml:",omitempty"`
+	Flow    []string       `yaml:",flow"`
+	Named   string         `yaml:"named,omitempty,flow"`
+	Rest    map[string]any `yaml:",inline"`
+}
+
+func vpH_c16_tags() {
+	b := &vpSrcBuilder{m: NewMap[string, any](0)}
+	emptyKey := vpBool()
+	if emptyKey {
+		b.set("", "e")
+	}
+	b.optStr("flagged")
+	b.optStr("named")
+	fl := vpStr(1, "x-z")
+	flowKind := vpInt(0, 2)
+	switch flowKind {
+	case 1:
+		b.set("flow", []any{fl})
+	case 2:
+		b.set("flow", nil)
+	}
+	free := vpStr(1, "a-c") + vpStrUpTo(1, "a-c")
+	b.set(free, "f")
+
+	dst := vpT5{Flagged: "SF", Named: "SN", Flow: []string{"S"}}
+	err := Unmarshal(b.m, &dst)
+	vpAssert(err == nil, "well-typed input unmarshals without error")
+	fv, fh := b.get("flagged")
+	vpAssert(dst.Flagged == vpStrOr(fv, fh, "SF"), "a field whose tag has only flags takes its lower-cased name")
+	nv, nh := b.get("named")
+	vpAssert(dst.Named == vpStrOr(nv, nh, "SN"), "flags after a key do not change which key a field takes")
+	switch flowKind {
+	case 0:
+		vpAssert(len(dst.Flow) == 1 && dst.Flow[0] == "S", "an absent key leaves a flags-only slice field untouched")
+	case 1:
+		vpAssert(len(dst.Flow) >= 1 && dst.Flow[len(dst.Flow)-1] == fl, "a flags-only slice field takes its lower-cased name")
+	case 2:
+		vpAssert(len(dst.Flow) == 0, "null zeroes a flags-only slice field")
+	}
+	want := 1
+	if emptyKey {
+		want = 2
+		v, ok := dst.Rest[""]
+		vpAssert(ok && v == any("e"), "the empty input key is nobody's key: it goes to the inline map")
+	}
+	v, ok := dst.Rest[free]
+	vpAssert(ok && v == any("f") && len(dst.Rest) == want, "keys no field names go to the inline map, and nothing else does")
 }
